@@ -1,6 +1,8 @@
 import FxVerif.Proofs.C12
 import FxVerif.Proofs.C12Handler
 import FxVerif.Proofs.C12Sig
+import FxVerif.Proofs.C12Env
+import FxVerif.Model.C12Genesis
 /-!
 # C12 — a confirmation is stored only with the oracle's signature over the exact object
 
@@ -864,6 +866,311 @@ theorem genesis_import_files_under_owner (list : String) (hl : list = "BatchConf
   simp only [importOwners, List.mem_map, List.mem_filter]
   exact ⟨(e.oracle, r), ⟨hmem, by simp [genesisMatches, genesisSideC, genesisSideO, hx]⟩, rfl⟩
 
+/-! ## 12. (round 4) the gravity id: `fxtypes.StrToByte32` as the source spells it, and what `Params.ValidateBasic` admits -/
+
+section GravityId
+open FxVerif.Gen.C12Env
+
+/-- the body of `StrToByte32` (regenerated) is the shape the interpreter `strToByte32By` understands: a 32-byte array, the
+byte length of the text compared with `> 32`, `copy` of the text into the whole array -/
+theorem str_to_byte32_as_modelled :
+    str32Modelled str32 = true ∧ str32.arrayLen = 32 ∧ str32.guardOp = ">" ∧ str32.guardBound = 32 := by decide
+
+/-- for EVERY text: the function errs exactly above 32 bytes; otherwise it yields the text right-padded with zero bytes to
+32 bytes, whose big-endian value (the `bytes32` word the checkpoint packs) is below 2^256 — the hypothesis `g < 2 ^ 256` of the
+injectivity theorems of section 3 holds for every gravity id the code can pack -/
+theorem gravity_id_word_defined (s : List Nat) (hb : Bytes s) :
+    ((gidWord s).isSome ↔ s.length ≤ 32) ∧
+    ∀ w, gidWord s = some w → w = fromBE (s ++ List.replicate (32 - s.length) 0) ∧ w < 2 ^ 256 := by
+  refine ⟨?_, fun w h => (gidWord_some s hb w h).2⟩
+  unfold gidWord
+  rw [strToByte32_eq]
+  by_cases h : s.length > 32 <;> simp [h] <;> omega
+
+/-- `_partial`: two gravity-id texts WITHOUT a trailing NUL byte that are packed as the same word are the same text.  Missing
+for the full statement: the zero padding cannot be told from trailing NUL bytes of the text (`gravity_id_padding_collides`) -/
+theorem gravity_id_word_injective_partial (s t : List Nat) (hs : Bytes s) (ht : Bytes t)
+    (ns : NoTrailingNul s) (nt : NoTrailingNul t) (w : Nat) (h1 : gidWord s = some w) (h2 : gidWord t = some w) : s = t :=
+  gidWord_inj s t hs ht ns nt w h1 h2
+
+/-- the two checks `Params.ValidateBasic` makes on a gravity id (regenerated): not empty, and `StrToByte32` succeeds -/
+theorem params_gravity_id_checks :
+    gidParamChecks = [("len(m.GravityId) == 0", "failIf"), ("fxtypes.StrToByte32(m.GravityId)", "failIfErr:err != nil")] := by
+  decide
+
+/-- so a gravity id the parameters may hold is 1..32 bytes and has a word below 2^256 -/
+theorem valid_gravity_id_has_word (s : List Nat) (hb : Bytes s) (h : gidParamValid s = true) :
+    s ≠ [] ∧ s.length ≤ 32 ∧ ∃ w, gidWord s = some w ∧ w < 2 ^ 256 := by
+  obtain ⟨h1, h2⟩ := (gidParamValid_iff s).1 h
+  have hw : (gidWord s).isSome := by simpa [gidWord] using h2
+  obtain ⟨w, hw⟩ := Option.isSome_iff_exists.1 hw
+  exact ⟨h1, (gidWord_some s hb w hw).1, w, hw, (gidWord_some s hb w hw).2.2⟩
+
+/-- the hypothesis of `gravity_id_word_injective_partial` is needed AND parameter validation does not supply it: "x" and
+"x\0" are different texts, both accepted by `Params.ValidateBasic`, and packed as the same `bytes32` — two chains configured
+with them share every checkpoint (as do two chains configured with the same text: nothing in the code keeps the gravity ids
+of different chains apart; it is the `bytes32`, the contract's `state_fxBridgeId`, that is the chain id of the property) -/
+theorem gravity_id_padding_collides :
+    gidWord [120] = gidWord [120, 0] ∧ (gidWord [120]).isSome ∧ gidParamValid [120] = true ∧ gidParamValid [120, 0] = true := by
+  decide
+
+/-- the method tags of all six layouts are `StrToByte32` (as regenerated) of the tag texts in the Go source -/
+theorem method_tags_via_str_to_byte32 :
+    ((goLayouts ++ tronLayouts).all fun L => L.args.all fun a =>
+      match a.src with | .tag t w => gidWord (t.toList.map Char.toNat) == some w | _ => true) = true := by decide
+
+/-- SIGNATURES NEVER TRANSPLANT, stated over what the parameters hold: for any two gravity-id TEXTS that parameter
+validation admits (chains, or one chain before and after a parameter change), under Keccak collision resistance, equal
+checkpoints of two well-formed objects imply the same object AND the same `bytes32` chain id — and the same text whenever
+neither text ends in a NUL byte.  No `g < 2 ^ 256` hypothesis: it is derived from the regenerated `StrToByte32`. -/
+theorem signatures_never_transplant_gravity_id_texts (H : List Nat → List Nat) (hH : CollisionResistant H) (a b : AnyObj)
+    (s1 s2 : List Nat) (wa : a.WF) (wb : b.WF) (hb1 : Bytes s1) (hb2 : Bytes s2)
+    (v1 : gidParamValid s1 = true) (v2 : gidParamValid s2 = true)
+    (h : (goPre a ((gidWord s1).getD 0)).map H = (goPre b ((gidWord s2).getD 0)).map H) :
+    a = b ∧ gidWord s1 = gidWord s2 ∧ (NoTrailingNul s1 → NoTrailingNul s2 → s1 = s2) := by
+  obtain ⟨_, _, w1, hw1, hl1⟩ := valid_gravity_id_has_word s1 hb1 v1
+  obtain ⟨_, _, w2, hw2, hl2⟩ := valid_gravity_id_has_word s2 hb2 v2
+  rw [hw1, hw2] at h
+  simp only [Option.getD_some] at h
+  obtain ⟨hab, hw⟩ := signatures_never_transplant H hH a b w1 w2 wa wb hl1 hl2 h
+  subst hw
+  exact ⟨hab, by rw [hw1, hw2], fun n1 n2 => gidWord_inj s1 s2 hb1 hb2 n1 n2 w1 hw1 hw2⟩
+
+/-- END TO END over gravity-id TEXTS (section 6 restated without any numeric bound): on a chain whose parameters hold the
+admitted text `s`, after ANY sequence of typed object stores, registry writes, confirms and prunings, if the contract of a chain
+configured with ANY admitted text `s2` recomputes for ANY well-formed object `b` the digest a stored confirmation was verified
+against, then `b` is the stored object the confirmation names and `s2` is packed as the same `bytes32` as `s` (and is the same
+text when neither ends in a NUL byte) -/
+theorem stored_confirm_valid_for_no_other_chain_text (recover : List Nat → List Nat → Option String) (H : List Nat → List Nat)
+    (hH : CollisionResistant H) (s s2 : List Nat) (hs : Bytes s) (hs2 : Bytes s2)
+    (v : gidParamValid s = true) (v2 : gidParamValid s2 = true)
+    (tops : List TOp) (hok : ∀ t ∈ tops, t.ok = true)
+    (hwf : ∀ tok a, TOp.store tok a ∈ tops → a.WF ∧ a.Int64Safe) (e : Entry)
+    (he : e ∈ (run recover {} (tops.map (TOp.toOp H ((gidWord s).getD 0)))).confirms)
+    (b : AnyObj) (wb : b.WF) (hcol : contractDigest H ((gidWord s2).getD 0) b = e.digest) :
+    ∃ tok, TOp.store tok b ∈ tops ∧ e.key = keyOf tok b ∧ gidWord s2 = gidWord s ∧
+      (NoTrailingNul s → NoTrailingNul s2 → s2 = s) := by
+  obtain ⟨_, _, w, hw, hl⟩ := valid_gravity_id_has_word s hs v
+  obtain ⟨_, _, w2, hw2, hl2⟩ := valid_gravity_id_has_word s2 hs2 v2
+  rw [hw] at he
+  rw [hw2] at hcol
+  simp only [Option.getD_some] at he hcol
+  obtain ⟨tok, h1, h2, h3⟩ := stored_confirm_valid_for_nothing_else recover H hH w hl tops hok hwf e he b w2 wb hl2 hcol
+  subst h3
+  exact ⟨tok, h1, h2, by rw [hw, hw2], fun n n2 => gidWord_inj s2 s hs2 hs n2 n w2 hw2 hw⟩
+
+end GravityId
+
+/-! ## 13. (round 4) where the `int64`-cast fields come from: `CalExternalTimeoutHeight`, the builders, the counters -/
+
+section Provenance
+open FxVerif.Gen.C12Env
+
+/-- `CalExternalTimeoutHeight` (statement list and expression trees regenerated from the AST, interpreted with wrapping
+`uint64` arithmetic) IS the closed form, for all inputs with a non-zero external block time -/
+theorem timeout_program_is_formula (i : TIn) (h : i.avgExt ≠ 0) : calTimeout i = some (timeoutFormula i) :=
+  calTimeout_eq i h
+
+/-- the external block time `Params.ValidateBasic` admits is at least 100 (regenerated bound) -/
+theorem params_external_block_time_at_least_100 (v : Nat) (h : paramRejects "AverageExternalBlockTime" v = false) : 100 ≤ v := by
+  rw [paramRejects_avgExt] at h
+  simpa using h
+
+/-- a timeout the code computes fits an `int64` — for EVERY current height, recorded height, block time and timeout
+parameter (every wrap-around of the intermediate `uint64` values included) — whenever the last observed external height is
+below 2^62 and the parameters passed validation.  The one input that can push a timeout to 2^63 is an attested external
+block height of that size (`timeout_exceeds_int64_for_huge_height`) -/
+theorem timeout_fits_int64 (i : TIn) (hp : paramRejects "AverageExternalBlockTime" i.avgExt = false)
+    (hext : i.extHeight < 2 ^ 62) (ht : i.timeout < 2 ^ 64) : ∃ v, calTimeout i = some v ∧ v < 2 ^ 63 := by
+  have h100 := params_external_block_time_at_least_100 _ hp
+  exact ⟨_, calTimeout_eq i (by omega), timeoutFormula_lt i hext h100 ht⟩
+
+/-- the hypothesis on the external height is needed -/
+theorem timeout_exceeds_int64_for_huge_height :
+    ∃ v, calTimeout ⟨10, 5, 2 ^ 63, 1000, 1000, 100000⟩ = some v ∧ 2 ^ 63 ≤ v := by
+  refine ⟨_, calTimeout_eq _ (by decide), ?_⟩
+  decide
+
+/-- where the builders take the fields the checkpoints cast to `int64` from (composite literals, local definitions and
+guards regenerated): nonces from `autoIncrementID` counters, timeouts from `CalExternalTimeoutHeight` with the callback of
+their own parameter and an exit when it is `<= 0`, the bridge call's event nonce from the caller; the oracle-set nonce is the
+latest nonce + 1, recorded as the latest by `AddOracleSetRequest` -/
+theorem builders_provenance :
+    fieldSrc (builderOf "BuildOutgoingTxBatch") "BatchNonce" = .counter "types.KeyLastOutgoingBatchID" ∧
+    fieldSrc (builderOf "BuildOutgoingTxBatch") "BatchTimeout" = .timeoutOf "GetExternalBatchTimeout" ∧
+    (builderOf "BuildOutgoingTxBatch").guards = ["batchTimeout <= 0"] ∧
+    fieldSrc (builderOf "BuildOutgoingBridgeCall") "Nonce" = .counter "types.KeyLastBridgeCallID" ∧
+    fieldSrc (builderOf "BuildOutgoingBridgeCall") "Timeout" = .timeoutOf "GetBridgeCallTimeout" ∧
+    fieldSrc (builderOf "BuildOutgoingBridgeCall") "EventNonce" = .param "eventNonce" ∧
+    (builderOf "BuildOutgoingBridgeCall").guards = ["bridgeCallTimeout <= 0"] ∧
+    timeoutCallbacks = [("GetBridgeCallTimeout", "params.BridgeCallTimeout"), ("GetExternalBatchTimeout", "params.ExternalBatchTimeout")] ∧
+    fieldSrc (builderOf "NewOracleSet") "Nonce" = .param "nonce" ∧
+    oracleSetReturn = "types.NewOracleSet(oracleSetNonce, uint64(ctx.BlockHeight()), bridgeValidators)" ∧
+    oracleSetLocals.lookup "oracleSetNonce" = some "k.GetLatestOracleSetNonce(ctx) + 1" ∧
+    addOracleSetRequest = ["if len(currentOracleSet.Members) == 0", "StoreOracleSet(currentOracleSet)",
+      "SetLatestOracleSetNonce(currentOracleSet.Nonce)", "SetLastTotalPower()"] := by decide
+
+/-- `autoIncrementID` (regenerated): returns the stored id (1 when nothing is stored) and stores id + 1 — so the ids any run
+of calls returns are pairwise different (object keys are never reused) and count up from the stored value, as long as the
+counter stays below 2^64 -/
+theorem counter_ids_never_repeat (n c : Nat) (h : c + n < 2 ^ 64) :
+    autoIncr.default = 1 ∧ autoIncr.inc = 1 ∧ autoIncr.ret = autoIncr.incOf ∧
+    (drawIds n (some c)).Nodup ∧ ∀ id ∈ drawIds n (some c), c ≤ id ∧ id < c + n :=
+  ⟨autoIncr_consts.1, autoIncr_consts.2.1, autoIncr_consts.2.2, drawIds_nodup n c h⟩
+
+/-- the power normalisation of `GetCurrentOracleSet` (method chain regenerated: `NewUint(power).MulUint64(math.MaxUint32)
+.QuoUint64(totalPower).Uint64()`): every member of every power list whose sum does not wrap gets a power of at most
+`math.MaxUint32`, far inside an `int64` -/
+theorem normalised_powers_fit_int64 (ps : List Nat) (p : Nat) (hp : p ∈ ps) (h0 : ps.sum ≠ 0) :
+    ∃ v, normPower p ps.sum = some v ∧ v ≤ 4294967295 ∧ v < 2 ^ 63 := by
+  obtain ⟨v, h1, h2⟩ := normPower_le p ps.sum (mem_le_sum ps p hp) h0
+  exact ⟨v, h1, h2, by omega⟩
+
+/-- the environment of a builder call is *ordinary*: counters below 2^63, the last observed external height below 2^62, the
+parameters validated, the caller's numeric arguments (the event nonce of an attested claim: a counter) below 2^63 -/
+def OrdinaryEnv (e : BuildEnv) : Prop :=
+  (∀ k, (autoIncrStep (e.counter k)).1 < 2 ^ 63) ∧
+  (∀ cb, (e.tin cb).extHeight < 2 ^ 62 ∧ paramRejects "AverageExternalBlockTime" (e.tin cb).avgExt = false ∧ (e.tin cb).timeout < 2 ^ 64) ∧
+  ∀ p, e.par p < 2 ^ 63
+
+/-- every `int64`-cast field of a batch / bridge call the builders produce in an ordinary environment fits an `int64` -/
+theorem built_numeric_fields_fit_int64 (e : BuildEnv) (he : OrdinaryEnv e) (fn field : String)
+    (hf : (fn, field) ∈ [("BuildOutgoingTxBatch", "BatchNonce"), ("BuildOutgoingTxBatch", "BatchTimeout"),
+      ("BuildOutgoingBridgeCall", "Nonce"), ("BuildOutgoingBridgeCall", "Timeout"), ("BuildOutgoingBridgeCall", "EventNonce")]) :
+    ∃ v, evalSrc e (fieldSrc (builderOf fn) field) = some v ∧ v < 2 ^ 63 := by
+  obtain ⟨hc, htm, hpar⟩ := he
+  obtain ⟨p1, p2, _, p4, p5, p6, _⟩ := builders_provenance
+  simp only [List.mem_cons, Prod.mk.injEq, List.mem_nil_iff, or_false] at hf
+  rcases hf with ⟨rfl, rfl⟩ | ⟨rfl, rfl⟩ | ⟨rfl, rfl⟩ | ⟨rfl, rfl⟩ | ⟨rfl, rfl⟩
+  · rw [p1]; exact ⟨_, rfl, hc _⟩
+  · rw [p2]; obtain ⟨a, b, c⟩ := htm "GetExternalBatchTimeout"; exact timeout_fits_int64 _ b a c
+  · rw [p4]; exact ⟨_, rfl, hc _⟩
+  · rw [p5]; obtain ⟨a, b, c⟩ := htm "GetBridgeCallTimeout"; exact timeout_fits_int64 _ b a c
+  · rw [p6]; exact ⟨_, rfl, hpar _⟩
+
+/-- END TO END without the `Int64Safe` hypothesis, for objects the code builds: a bridge call whose nonce, timeout and event
+nonce are what `BuildOutgoingBridgeCall` assigns in an ordinary environment is hashed by the confirm handler of either chain
+style to exactly the bytes the bridge contract hashes, for every gravity id and every other field -/
+theorem built_bridge_call_checkpoint_is_contract_digest (tron : Bool) (e : BuildEnv) (he : OrdinaryEnv e) (c : BridgeCall) (g : Nat)
+    (hn : evalSrc e (fieldSrc (builderOf "BuildOutgoingBridgeCall") "Nonce") = some c.nonce)
+    (ht : evalSrc e (fieldSrc (builderOf "BuildOutgoingBridgeCall") "Timeout") = some c.timeout)
+    (hv : evalSrc e (fieldSrc (builderOf "BuildOutgoingBridgeCall") "EventNonce") = some c.eventNonce) :
+    handlerPreimage tron "bridgeCall" c.toObj g = solPre (.bcall c) g ∧ (solPre (.bcall c) g).isSome := by
+  have f := fun fld hf => built_numeric_fields_fit_int64 e he "BuildOutgoingBridgeCall" fld hf
+  obtain ⟨v1, a1, b1⟩ := f "Nonce" (by simp)
+  obtain ⟨v2, a2, b2⟩ := f "Timeout" (by simp)
+  obtain ⟨v3, a3, b3⟩ := f "EventNonce" (by simp)
+  rw [hn] at a1; rw [ht] at a2; rw [hv] at a3
+  cases a1; cases a2; cases a3
+  exact handler_checkpoint_is_contract_digest tron (.bcall c) g ⟨b1, b2, b3⟩
+
+/-- … a batch built by `BuildOutgoingTxBatch` -/
+theorem built_batch_checkpoint_is_contract_digest (tron : Bool) (e : BuildEnv) (he : OrdinaryEnv e) (b : Batch) (g : Nat)
+    (hn : evalSrc e (fieldSrc (builderOf "BuildOutgoingTxBatch") "BatchNonce") = some b.nonce)
+    (ht : evalSrc e (fieldSrc (builderOf "BuildOutgoingTxBatch") "BatchTimeout") = some b.timeout) :
+    handlerPreimage tron "batch" b.toObj g = solPre (.batch b) g ∧ (solPre (.batch b) g).isSome := by
+  have f := fun fld hf => built_numeric_fields_fit_int64 e he "BuildOutgoingTxBatch" fld hf
+  obtain ⟨v1, a1, b1⟩ := f "BatchNonce" (by simp)
+  obtain ⟨v2, a2, b2⟩ := f "BatchTimeout" (by simp)
+  rw [hn] at a1; rw [ht] at a2
+  cases a1; cases a2
+  exact handler_checkpoint_is_contract_digest tron (.batch b) g ⟨b1, b2⟩
+
+/-- … and an oracle set as `GetCurrentOracleSet` builds it: nonce = latest nonce + 1 (below 2^63), member powers normalised
+from a power list whose sum does not vanish -/
+theorem built_oracle_set_checkpoint_is_contract_digest (tron : Bool) (o : OracleSet) (g : Nat) (latest : Nat) (ps : List Nat)
+    (hn : o.nonce = latest + 1) (hl : latest + 1 < 2 ^ 63) (h0 : ps.sum ≠ 0)
+    (hm : ∀ m ∈ o.members, ∃ p ∈ ps, normPower p ps.sum = some m.power) :
+    handlerPreimage tron "oracleSet" o.toObj g = solPre (.oset o) g ∧ (solPre (.oset o) g).isSome := by
+  apply handler_checkpoint_is_contract_digest tron (.oset o) g
+  refine ⟨by rw [hn]; exact hl, fun m hmem => ?_⟩
+  obtain ⟨p, hp, hv⟩ := hm m hmem
+  obtain ⟨v, h1, _, h3⟩ := normalised_powers_fit_int64 ps p hp h0
+  rw [hv] at h1; cases h1; exact h3
+
+end Provenance
+
+/-! ## 14. (round 4) what a genesis export / import does to stored confirmations -/
+
+section GenesisRoundTrip
+open FxVerif.Gen.C12Env
+
+/-- the exported state (fields of `GenesisState`, the calls of `ExportGenesis`, the reads of `InitGenesis`, all regenerated)
+carries oracle-set confirmations collected per EXPORTED oracle set and batch confirmations collected per EXPORTED batch — and
+nothing about bridge calls: neither the outgoing bridge calls nor their confirmations are part of a genesis -/
+theorem genesis_carries_no_bridge_call_state :
+    exportEntry "oracleSet" = some ("OracleSetConfirms", "k.IterateOracleSetConfirmByNonce(vs.Nonce)", "state.OracleSets") ∧
+    exportEntry "batch" = some ("BatchConfirms",
+      "k.IterateBatchConfirmByNonceAndTokenContract(batch.BatchNonce, batch.TokenContract)", "state.Batches") ∧
+    exportEntry "bridgeCall" = none ∧
+    genesisStateFields = ["Params", "LastObservedEventNonce", "LastObservedBlockHeight", "Oracles", "OracleSets", "BridgeTokens",
+      "UnbatchedTransfers", "Batches", "OracleSetConfirms", "BatchConfirms", "Attestations", "ProposalOracle",
+      "LastObservedOracleSet", "LastSlashedBatchBlock", "LastSlashedOracleSetNonce"] ∧
+    (genesisStateFields.all fun f => genesisImports.contains f && (genesisExports.map (·.1)).contains f) = true := by decide
+
+private theorem exportsConfirm_true (st : HState) (e : Entry) (h : exportsConfirm st e = true) :
+    (e.key.kind = "oracleSet" ∨ e.key.kind = "batch") ∧ (st.objects.lookup e.key).isSome := by
+  obtain ⟨h1, h2, h3, _, _⟩ := genesis_carries_no_bridge_call_state
+  unfold exportsConfirm at h
+  cases hk : e.key with
+  | oracleSet n =>
+    simp only [hk, ObjKey.kind, h1] at h
+    simp only [Bool.and_eq_true] at h
+    refine ⟨.inl rfl, ?_⟩
+    have := h.2
+    simpa [objectScopeOf] using this
+  | batch t n =>
+    simp only [hk, ObjKey.kind, h2] at h
+    simp only [Bool.and_eq_true] at h
+    refine ⟨.inr rfl, ?_⟩
+    have := h.2
+    simpa [objectScopeOf] using this
+  | bridgeCall n =>
+    simp [hk, ObjKey.kind, h3] at h
+
+/-- A ROUND TRIP ONLY LOSES.  For every state whose registry has unique external addresses (`Props/C13.registry_bijective`):
+every confirmation stored after export → import was stored before, byte for byte and under the same oracle; it is an
+oracle-set or batch confirmation; and its object is still stored.  So everything sections 4–6 prove about stored
+confirmations holds of the imported ones -/
+theorem genesis_round_trip_only_loses (st : HState)
+    (huniq : ∀ e ∈ st.confirms, ∀ p ∈ st.oracles, p.2.external = e.external → p.1 = e.oracle) :
+    ∀ e' ∈ roundTripConfirms st, e' ∈ st.confirms ∧ e'.key.kind ≠ "bridgeCall" ∧ (st.objects.lookup e'.key).isSome := by
+  intro e' he'
+  simp only [roundTripConfirms, List.mem_flatMap, List.mem_filter, List.mem_map] at he'
+  obtain ⟨e, ⟨hmem, hexp⟩, o, ho, rfl⟩ := he'
+  obtain ⟨hkind, hlive⟩ := exportsConfirm_true st e hexp
+  have hlist : confirmListOf e.key.kind = "BatchConfirms" ∨ confirmListOf e.key.kind = "OracleSetConfirms" := by
+    rcases hkind with h | h <;> rw [h] <;> decide
+  have := genesis_import_keeps_owner _ hlist st.oracles e (huniq e hmem) o ho
+  subst this
+  refine ⟨hmem, ?_, hlive⟩
+  rcases hkind with h | h <;> simp [h]
+
+/-- … and it keeps every oracle-set / batch confirmation whose object is still stored and whose oracle is still registered
+with the external address it confirmed with -/
+theorem genesis_round_trip_keeps (st : HState) (e : Entry) (he : e ∈ st.confirms)
+    (hkind : e.key.kind = "oracleSet" ∨ e.key.kind = "batch") (hlive : (st.objects.lookup e.key).isSome)
+    (r : OracleRec) (hreg : (e.oracle, r) ∈ st.oracles) (hx : r.external = e.external) : e ∈ roundTripConfirms st := by
+  obtain ⟨h1, h2, _, _, _⟩ := genesis_carries_no_bridge_call_state
+  have hlist : confirmListOf e.key.kind = "BatchConfirms" ∨ confirmListOf e.key.kind = "OracleSetConfirms" := by
+    rcases hkind with h | h <;> rw [h] <;> decide
+  have hexp : exportsConfirm st e = true := by
+    unfold exportsConfirm
+    rcases hkind with h | h
+    · rw [h, h1]; simp [objectScopeOf, confirmListOf, hlive]; decide
+    · rw [h, h2]; simp [objectScopeOf, confirmListOf, hlive]; decide
+  simp only [roundTripConfirms, List.mem_flatMap, List.mem_filter, List.mem_map]
+  exact ⟨e, ⟨he, hexp⟩, e.oracle, genesis_import_files_under_owner _ hlist st.oracles e r hreg hx, rfl⟩
+
+/-- bridge-call confirmations do not survive a genesis export / import (availability: the oracles have to confirm again —
+an observation, not a violation: nothing is stored that was not verified) -/
+theorem genesis_round_trip_drops_bridge_call_confirms (st : HState)
+    (huniq : ∀ e ∈ st.confirms, ∀ p ∈ st.oracles, p.2.external = e.external → p.1 = e.oracle) (e : Entry)
+    (hk : e.key.kind = "bridgeCall") : e ∉ roundTripConfirms st :=
+  fun h => (genesis_round_trip_only_loses st huniq e h).2.1 hk
+
+end GenesisRoundTrip
+
 /-! ## non-vacuity -/
 
 /-- a well-formed, int64-safe oracle set with members exists -/
@@ -992,5 +1299,66 @@ example :
     importOwners (bridgerCmp "BatchConfirms") registry e = [1] ∧
     importOwners (genesisCmpOf "BatchConfirms") registry e = [1] := by
   decide
+
+/-! ### non-vacuity of the round-4 theorems -/
+
+section R4
+open FxVerif.Gen.C12Env
+
+/-- texts the gravity-id theorems speak about: a 32-byte id (no padding at all), a one-byte id, a 33-byte text (rejected),
+the empty text (rejected by validation, packed as zero by `StrToByte32`) -/
+example : gidParamValid (List.replicate 32 65) = true ∧ (gidWord (List.replicate 32 65)).isSome ∧
+    gidParamValid [120] = true ∧ gidWord (List.replicate 33 65) = none ∧ gidParamValid (List.replicate 33 65) = false ∧
+    gidParamValid [] = false ∧ gidWord [] = some 0 ∧ Bytes [120] ∧ NoTrailingNul [120] ∧ ¬ NoTrailingNul [120, 0] := by
+  refine ⟨by decide, by decide, by decide, by decide, by decide, by decide, by decide, ?_, by simp [NoTrailingNul], by simp [NoTrailingNul]⟩
+  intro b hb; simp at hb; omega
+
+/-- an ordinary builder environment exists, and in it the bridge-call builder's three fields evaluate (nonce 7 from the
+counter, the timeout from the program, the event nonce from the caller) -/
+private def exEnv : BuildEnv := ⟨fun _ => some 7, fun _ => ⟨1000, 900, 5000000, 7000, 12000, 43200000⟩, fun _ => 3⟩
+
+example : OrdinaryEnv exEnv ∧
+    evalSrc exEnv (fieldSrc (builderOf "BuildOutgoingBridgeCall") "Nonce") = some 7 ∧
+    evalSrc exEnv (fieldSrc (builderOf "BuildOutgoingBridgeCall") "Timeout") = some 5003658 ∧
+    evalSrc exEnv (fieldSrc (builderOf "BuildOutgoingBridgeCall") "EventNonce") = some 3 := by
+  refine ⟨⟨fun _ => by simp only [exEnv]; decide, fun _ => ⟨by simp only [exEnv]; decide, by simp only [exEnv]; decide,
+    by simp only [exEnv]; decide⟩, fun _ => by simp only [exEnv]; decide⟩, by decide, ?_, by decide⟩
+  obtain ⟨_, _, _, _, p5, _⟩ := builders_provenance
+  rw [p5]
+  simp only [evalSrc, exEnv]
+  rw [calTimeout_eq _ (by decide)]
+  decide
+
+/-- the wrap-around is real: a recorded height above the current one makes the first product wrap, the result is still
+inside an `int64` (`timeout_fits_int64`); and the normalisation of a two-member power list -/
+example : calTimeout ⟨5, 10, 100, 7000, 100, 0⟩ = some (timeoutFormula ⟨5, 10, 100, 7000, 100, 0⟩) ∧
+    timeoutFormula ⟨5, 10, 100, 7000, 100, 0⟩ = 184467440737095266 ∧
+    normPower 30 (([30, 10] : List Nat).sum) = some 3221225471 ∧ normPower 10 (([30, 10] : List Nat).sum) = some 1073741823 := by
+  refine ⟨calTimeout_eq _ (by decide), by decide, ?_, ?_⟩
+  · exact normPower_gen 30 40 4294967295 maxUint32_const (by decide) (by decide)
+  · exact normPower_gen 10 40 4294967295 maxUint32_const (by decide) (by decide)
+
+/-- `stored_confirm_valid_for_no_other_chain_text` is not vacuous: a typed run on a chain whose gravity id is the TEXT "x" in
+which a confirmation gets stored -/
+example : gidParamValid [120] = true ∧ ∃ e, e ∈ (run (fun _ s => if s == [9] then some "0xExt" else none) {}
+    ([TOp.store "" (.oset ⟨7, []⟩), .other (.setOracle 1 ⟨"bridgerY", "0xExt"⟩), .other (.setIndex "0xExt" 1),
+      .other (.confirm ⟨.oracleSet 7, "bridgerY", "0xExt", some [9]⟩)].map (TOp.toOp id ((gidWord [120]).getD 0)))).confirms := by
+  refine ⟨by decide, ⟨.oracleSet 7, 1, "bridgerY", "0xExt", [9], digestOf id ((gidWord [120]).getD 0) (.oset ⟨7, []⟩), ⟨"bridgerY", "0xExt"⟩⟩, ?_⟩
+  simp [run, step, stepOther, TOp.toOp, keyOf, confirmStep, hasConfirm, upsert, List.lookup]
+
+example : drawIds 3 none = [1, 2, 3] ∧ drawIds 2 (some (2 ^ 63 - 1)) = [2 ^ 63 - 1, 2 ^ 63] := by decide
+
+/-- a state with one confirmation of each kind on live objects, one on a cancelled batch: the round trip keeps the oracle-set
+and the live batch confirmation, drops the bridge-call one and the one left behind by the cancelled batch -/
+example :
+    let r : OracleRec := ⟨"X", "extA"⟩
+    let mk : ObjKey → Entry := fun k => ⟨k, 1, "X", "extA", [9], [1, 2, 3], r⟩
+    let st : HState := {
+      objects := [(.oracleSet 7, [1]), (.batch "t" 3, [2]), (.bridgeCall 5, [3])]
+      oracles := [(1, r)]
+      confirms := [mk (.oracleSet 7), mk (.batch "t" 3), mk (.bridgeCall 5), mk (.batch "t" 2)] }
+    (roundTripConfirms st).map (·.key) = [.oracleSet 7, .batch "t" 3] := by decide
+
+end R4
 
 end FxVerif.Props.C12
